@@ -46,6 +46,51 @@ fn sketch_bits(kind: &str, m: usize, items: &[Item], entry: usize) -> Vec<u64> {
     sk.public_bits()
 }
 
+/// both sets through ONE sketcher object: sketch A, read, reinit/reset, sketch B, read (kinds that offer reinit/reset)
+fn sketch_bits_reuse(kind: &str, m: usize, ia: &[Item], ib: &[Item], entry: usize) -> Option<(Vec<u64>, Vec<u64>)> {
+    if kind.starts_with("dens_") {
+        let p: Vec<&str> = kind.split('_').collect();
+        let bh = BuildHasherDefault::<FnvHasher>::default();
+        let a: Vec<u64> = ia.iter().map(|i| i.id).collect();
+        let b: Vec<u64> = ib.iter().map(|i| i.id).collect();
+        macro_rules! go {
+            ($ty:ident, $f:ty) => {{
+                let mut s = $ty::<$f, u64, FnvHasher>::new(m, bh);
+                let mut view = |s: &$ty<$f, u64, FnvHasher>| -> Vec<u64> {
+                    match p[3] {
+                        "u64" => s.get_hsketch_u64(),
+                        "u32" => s.get_hsketch_u32().iter().map(|x| *x as u64).collect(),
+                        _ => s.get_hsketch().iter().map(|x| (*x as f64).to_bits()).collect(),
+                    }
+                };
+                s.sketch_slice(&a).unwrap();
+                let x = view(&s);
+                s.reinit();
+                s.sketch_slice(&b).unwrap();
+                let y = view(&s);
+                Some((x, y))
+            }};
+        }
+        return match (p[1], p[2]) {
+            ("opt", "f64") => go!(OptDensMinHash, f64),
+            ("opt", "f32") => go!(OptDensMinHash, f32),
+            ("rev", "f64") => go!(RevOptDensMinHash, f64),
+            ("rev", "f32") => go!(RevOptDensMinHash, f32),
+            _ => None,
+        };
+    }
+    let cfg = Cfg { kind: kind.to_string(), m, ss: None };
+    let mut sk = make(&cfg);
+    let ents = sk.entries();
+    sk.batch(ia, ents[entry % ents.len()]);
+    let x = sk.public_bits();
+    if sk.reinit() != O_OK {
+        return None;
+    }
+    sk.batch(ib, ents[(entry + 1) % ents.len()]);
+    Some((x, sk.public_bits()))
+}
+
 fn groups(cell: &Value) -> Vec<(usize, f64, f64)> {
     cell["groups"].as_array().unwrap().iter()
         .map(|g| (g[0].as_u64().unwrap() as usize, g[1].as_f64().unwrap(), g[2].as_f64().unwrap()))
@@ -105,7 +150,15 @@ fn pairs(a: &Args) {
                     ib.swap(i, j);
                 }
                 let e = trial as usize;
-                match catch(|| (sketch_bits(kind, m, &ia, e), sketch_bits(kind, m, &ib, e + 1))) {
+                let reuse = cell["reuse"].as_bool().unwrap_or(false);
+                match catch(|| {
+                    if reuse {
+                        if let Some(r) = sketch_bits_reuse(kind, m, &ia, &ib, e) {
+                            return r;
+                        }
+                    }
+                    (sketch_bits(kind, m, &ia, e), sketch_bits(kind, m, &ib, e + 1))
+                }) {
                     Ok((x, y)) => {
                         let eq = x.iter().zip(y.iter()).filter(|(p, q)| p == q).count();
                         hist[eq] += 1;
